@@ -86,6 +86,7 @@ namespace hv
             if (g == "SgDeep") return wire_sub<SgDeep>(w, how, x, p, q, id);
             if (g == "SgFail") return wire_sub<SgFail>(w, how, x, p, q, id);
             if (g == "SgCtx") return wire_sub<SgCtx>(w, how, x, p, q, id);
+            if (g == "SgFailT") return wire_sub<SgFailT>(w, how, x, p, q, id);
             throw std::invalid_argument("scenario: unknown sub-graph " + g);
         }
 
@@ -154,6 +155,7 @@ namespace hv
                 out = arg(0);
                 pg.ctx_scopes.push_back(std::make_unique<context::scope<"hvctx">>(w, out));
             }
+            else if (kind == "sshot") out = wire<SShot>(w, arg(0), id, Int{st.geti("at", 1)});
             else if (kind == "accum") out = wire<Accum>(w, arg(0), id);
             else if (kind == "ticker") out = wire<Ticker>(w, Int{st.geti("count", 3)}, Int{st.geti("period", 1)}, id);
             else if (kind == "timer0") out = wire<Timer0>(w, id);
@@ -195,7 +197,9 @@ namespace hv
             }
             else if (kind == "tryexcept")
             {   // tryexcept <G> x p= q= id= : result TSB{exception,out}; 'out' is the port, the exception is recorded under rec id <eid>
-                auto r   = try_except_<SgFail>(w, port_of(pg, args.at(1)), Int{st.geti("p", 1)}, Int{st.geti("q", 1)}, id).as<TryResult>();
+                auto r   = (args.at(0) == "SgFailT"
+                                ? try_except_<SgFailT>(w, port_of(pg, args.at(1)), Int{st.geti("p", 1)}, Int{st.geti("q", 1)}, id)
+                                : try_except_<SgFail>(w, port_of(pg, args.at(1)), Int{st.geti("p", 1)}, Int{st.geti("q", 1)}, id)).as<TryResult>();
                 auto ex  = wire<TryExc>(w, r, Int{st.geti("eid", 0)});
                 (void)ex;
                 out = wire<TryOut>(w, r, id);
